@@ -44,8 +44,28 @@ def _tls_pending(tree, ob):
                    'message is acted on only when unrelated later traffic arrives (or never)', fv.func)
 
 
+def _leftover_close(tree, ob):
+    ''' octets that follow a message in the same read are the next message(s).  The one place where they may be refused
+    is ahead of a TLS handshake that is really going to happen (C15.b); refusing them on the strength of the local
+    configuration alone loses a SESS_INIT that a peer without TLS legitimately sends behind its contact header. '''
+    fv = FuncView(tree, SESS, 'Messenger.recv_message')
+    n = 0
+    for c in method_calls(fv.func, 'close', 'self'):
+        facts = fv.facts(c) or ()
+        if not any((t, p) in (('self.__rx_buf', True), ('len(self.__rx_buf) > 0', True), ('len(self.__rx_buf) == 0', False), ('len(self.__rx_buf)', True)) for (t, p) in facts):
+            continue
+        n += 1
+        if ('self._tls_attempt', True) in facts:
+            ob.site(SESS, c, 'octets behind the contact header are refused only ahead of a negotiated TLS handshake')
+        else:
+            ob.violate(SESS, fv.qual, 'self.close() because self.__rx_buf is not empty', 'a complete message that arrived in the same read as the one before it is discarded and the '
+                       'connection closed, although no TLS handshake is about to start', c)
+    return n
+
+
 def c07a(tree, ob):
     _tls_pending(tree, ob)
+    _leftover_close(tree, ob)
     fv = FuncView(tree, SESS, 'Messenger.recv_raw')
     func = fv.func
     loops = [n for n in walk_local(func) if isinstance(n, ast.While)]
@@ -111,7 +131,33 @@ def _post_dissection(tree, rel, cls):
     return got
 
 
+def _scapy_dissect_mode(tree, ob):
+    ''' the probe relies on scapy's default handling of a layer that cannot be dissected (kept as raw octets, judged by the
+    completeness check).  With conf.debug_dissector set, the same short read raises struct.error out of the receive
+    callback instead: nothing in the repository may switch it on. '''
+    n = 0
+    for rel in sorted(tree.modules):
+        for node in ast.walk(tree.module(rel).tree):
+            tgt = None
+            if isinstance(node, (ast.Assign, ast.AugAssign, ast.AnnAssign)):
+                for t in (node.targets if isinstance(node, ast.Assign) else [node.target]):
+                    if isinstance(t, ast.Attribute) and t.attr == 'debug_dissector':
+                        tgt = t
+            elif isinstance(node, ast.Call) and (call_name(node) or '') == 'setattr' and len(node.args) >= 2 and isinstance(node.args[1], ast.Constant) and node.args[1].value == 'debug_dissector':
+                tgt = node
+            if tgt is not None:
+                val = node.value if not isinstance(node, ast.Call) else (node.args[2] if len(node.args) > 2 else None)
+                if isinstance(val, ast.Constant) and not val.value:
+                    continue
+                n += 1
+                ob.violate(rel, '<module>', 'debug_dissector = ' + (src(val) if val is not None else '?'), 'scapy is switched to raise on a layer it cannot dissect: a read that ends inside the fixed-size '
+                           'fields of a message raises struct.error out of the receive callback instead of being kept as a prefix', node)
+    if not n:
+        ob.site(SESS, tree.module(SESS).tree, 'scapy dissects in its default (non-raising) mode: {} modules scanned'.format(len(tree.modules)))
+
+
 def c07b(tree, ob):
+    _scapy_dissect_mode(tree, ob)
     for (rel, cls, node) in _probe_classes(tree):
         got = _post_dissection(tree, rel, cls)
         ok = False
@@ -346,3 +392,78 @@ def c07d(tree, ob):
                        'the message is not acted on until a further octet arrives'.format(up), applies[0])
         else:
             ob.site(MSGS, node, '{} minimal length {} accepted'.format(up, mlen))
+    _early_partial_bounds(tree, ob)
+
+
+def _early_partial_bounds(tree, ob):
+    ''' C07.d, second half: a length test that calls a buffer "partial" before it is dissected (pre_dissect raising
+    VerifyError) must not ask for more octets than the shortest message of the type has: it would hold back a complete
+    message until further octets arrive. '''
+    from ..core import const_int
+    minlen = {}
+    for (lo, up, kws, node) in schema.bindings(tree, MSGS):
+        if lo == 'MessageHead' and kws.get('msg_id') is not None:
+            minlen[kws['msg_id']] = 1 + _min_len(tree, MSGS, up)
+    pre = tree.find_method(MSGS, 'MessageHead', 'pre_dissect')
+    if not pre or pre[1].name != 'MessageHead':
+        return
+    fpre = FuncView(tree, MSGS, 'MessageHead.pre_dissect')
+    ob.require(len(pre[2].args.args) == 2, 'MessageHead.pre_dissect signature')
+    arg = pre[2].args.args[1].arg
+    cls = tree.klass(MSGS, 'MessageHead')
+
+    def table(name):
+        for st in cls.body:
+            if isinstance(st, ast.Assign) and src(st.targets[0]) == name and isinstance(st.value, ast.Dict):
+                res = {}
+                for (k, v) in zip(st.value.keys, st.value.values):
+                    (kk, vv) = (const_int(tree, MSGS, k), _const_len(tree, MSGS, v))
+                    if kk is None or vv is None:
+                        raise AnalysisError('C07.d: table {} entry {} not constant'.format(name, src(k)))
+                    res[kk] = vv
+                return res
+        raise AnalysisError('C07.d: no constant table ' + name)
+
+    for r in walk_local(pre[2]):
+        if not (isinstance(r, ast.Raise) and r.exc is not None and 'VerifyError' in src(r.exc)):
+            continue
+        for (text, pol) in fpre.facts(r) or ():
+            node = ast.parse(text, mode='eval').body
+            if not (isinstance(node, ast.Compare) and len(node.ops) == 1 and pm('len({})'.format(arg), node.left) is not None):
+                continue
+            (op, rhs) = (node.ops[0], node.comparators[0])
+            if pol is True and isinstance(op, ast.Lt):
+                adj = 0
+            elif pol is True and isinstance(op, ast.LtE):
+                adj = 1
+            elif pol is False and isinstance(op, ast.GtE):
+                adj = 0
+            elif pol is False and isinstance(op, ast.Gt):
+                adj = 1
+            else:
+                continue
+            n = _const_len(tree, MSGS, rhs)
+            if n is not None:
+                need = {k: n + adj for k in minlen}
+                other = n + adj
+            else:
+                key = '{}[0]'.format(arg)
+                if not (isinstance(rhs, ast.Call) and isinstance(rhs.func, ast.Attribute) and rhs.func.attr == 'get' and len(rhs.args) == 2 and src(rhs.args[0]) == key
+                        and isinstance(rhs.func.value, ast.Attribute) and src(rhs.func.value.value) in ('self', 'MessageHead', 'type(self)', 'self.__class__')):
+                    raise AnalysisError('C07.d: length bound {} in MessageHead.pre_dissect not understood'.format(src(rhs)))
+                tab = table(rhs.func.value.attr)
+                dflt = _const_len(tree, MSGS, rhs.args[1])
+                if dflt is None:
+                    raise AnalysisError('C07.d: default of {} not constant'.format(src(rhs)))
+                need = {k: tab.get(k, dflt) + adj for k in minlen}
+                other = max([dflt] + [v for (k, v) in tab.items() if k not in minlen]) + adj
+            for (k, v) in sorted(need.items()):
+                if v > minlen[k]:
+                    ob.violate(MSGS, 'MessageHead.pre_dissect', 'type {:#x}: fewer than {} octets => partial'.format(k, v),
+                               'a message of type {:#x} is complete with {:.0f} octets, but a buffer shorter than {} is called partial before it is dissected: '
+                               'the complete message is not acted on until further octets arrive'.format(k, minlen[k], v), r)
+                else:
+                    ob.site(MSGS, r, 'type {:#x}: early bound {} <= minimal length {}'.format(k, v, minlen[k]))
+            if other > 1:
+                ob.violate(MSGS, 'MessageHead.pre_dissect', 'unknown type: fewer than {} octets => partial'.format(other),
+                           'a header octet of a type without fields (or an unknown type) is called partial instead of being acted on (KEEPALIVE, rejection)', r)
